@@ -207,7 +207,11 @@ class JinjaEngine(TemplateEngine):
                     file_contents = file_descriptor.read().decode(
                         self._encoding
                     )
-            except (FileNotFoundError, IsADirectoryError):
+            except (
+                FileNotFoundError,
+                IsADirectoryError,
+                NotADirectoryError,
+            ):
                 # We are not interested in the details of why the template was
                 # not found, so we do not include the original exception.
                 #
